@@ -5,6 +5,7 @@ import (
 	"fmt"
 	"runtime"
 	"sort"
+	"strings"
 	"sync"
 	"sync/atomic"
 	"time"
@@ -38,6 +39,19 @@ type CCase struct {
 	NKeys    int     `json:"nkeys"`
 	Programs [][]COp `json:"programs"`
 	History  []HOp   `json:"history,omitempty"`
+	// Slash: the keys are spelled with this many leading '/' characters ("/a", "//a/"): the Redis backend maps such a key to the
+	// same server key as the plain spelling, so only one spelling is used within a case
+	Slash int `json:"slash,omitempty"`
+}
+
+func (c CCase) key(i int) string { return strings.Repeat("/", c.Slash) + Keys[i] }
+
+func (c CCase) keyNames(idx []int) []string {
+	r := make([]string, len(idx))
+	for i, k := range idx {
+		r[i] = c.key(k)
+	}
+	return r
 }
 
 // HOp is one recorded sub-operation (multi-key calls are split per key, sharing the stamps).
@@ -118,7 +132,7 @@ func ExecuteWith(c CCase, stFor func(ti int) kvs.Storage, run func(start chan st
 				for y := 0; y < op.Yield; y++ {
 					runtime.Gosched()
 				}
-				key := Keys[op.Key]
+				key := c.key(op.Key)
 				val := fmt.Sprintf("t%do%d", ti, oi)
 				if op.Same {
 					val = "same"
@@ -197,7 +211,7 @@ func ExecuteWith(c CCase, stFor func(ti int) kvs.Storage, run func(start chan st
 					h.Err = errClass(err)
 					local = append(local, h)
 				case "getmany":
-					keys := keyNames(op.Keys)
+					keys := c.keyNames(op.Keys)
 					call := stamp.Add(1)
 					rs, err := st.GetMany(ctx, keys...)
 					ret := stamp.Add(1)
@@ -212,7 +226,7 @@ func ExecuteWith(c CCase, stFor func(ti int) kvs.Storage, run func(start chan st
 						local = append(local, hh)
 					}
 				case "putmany":
-					keys := keyNames(op.Keys)
+					keys := c.keyNames(op.Keys)
 					recs := make([]kvs.Record, len(keys))
 					args := make([]string, len(keys))
 					for j, k := range keys {
